@@ -314,22 +314,10 @@ theorem ds_roundTripExact : RoundTripExact dsCodec DsOk := by
 
 /-! ### RRSIG -/
 
-theorem ts4_roundTrip : RoundTrip ts4Codec (fun o => ∃ t, o = some t ∧ t < 2 ^ 32 - 1) := by
-  intro o ⟨t, ho, ht⟩
-  subst ho
-  have ht' : t < 256 ^ 4 := by
-    have : (256 : Nat) ^ 4 = 2 ^ 32 := by decide
-    omega
-  refine ⟨encNat .network 4 t, composeNum_ok rfl ht', ?_⟩
-  intro s
-  simp only [ts4Codec, parseTimestamp, encNat_length]
-  rw [parseNum_enc rfl ht']
-  have hne : (t == 256 ^ 4 - 1) = false := by
-    have : (256 : Nat) ^ 4 = 2 ^ 32 := by decide
-    simp only [beq_eq_false_iff_ne, ne_eq]
-    omega
-  have hmod : t % 2 ^ 32 = t := Nat.mod_eq_of_lt (by omega)
-  simp [bind, Except.bind, hne, hmod, pure, Except.pure]
+theorem instantCodec_eq : instantCodec = num .network 4 := rfl
+
+theorem instant_roundTrip : RoundTrip instantCodec (fun t => t < 256 ^ 4) := by
+  rw [instantCodec_eq]; exact num_roundTrip .network rfl
 
 theorem rrType_below_private : ∀ c ∈ Gen.DnsRrType.codes, c < privateTypeMin := by decide +kernel
 
@@ -383,32 +371,27 @@ theorem typeCovered_roundTrip : RoundTrip typeCoveredCodec TypeCoveredOk := by
     simp [typeCoveredCodec, parseTypeCovered, orElseInvalid, parseCoded, parsePrivateType, parseNum_enc rfl hv,
       bind, Except.bind, findCode_none_of_not_mem hno, Except.map, hlo, hhi, pure, Except.pure]
 
-def RrsigOk (r : Rrsig) : Prop :=
-  TypeCoveredOk r.typeCovered ∧ r.algorithm < Gen.DnsSecAlgorithm.codes.length ∧ r.labels < 256 ^ 1 ∧
-  r.originalTtl < 256 ^ 4 ∧ r.expiration < 2 ^ 32 - 1 ∧ r.inception < 2 ^ 32 - 1 ∧ r.keyTag < 256 ^ 2 ∧
-  (∀ l ∈ r.signersName, LabelOk l) ∧
-  rrsigHeaderSize ≤ 18 + (Spec.Dns.encodeName r.signersName).length + r.signature.length
-
-def Rrsig.toSpec (r : Rrsig) : Spec.Dns.Rrsig :=
-  ⟨typeCoveredCode r.typeCovered, Gen.DnsSecAlgorithm.codes.getD r.algorithm 0, r.labels, r.originalTtl, r.expiration,
-    r.inception, r.keyTag, r.signersName, r.signature⟩
-
-/-- composition needs no upper limit on the instants other than the width of the field -/
+/-- every field fits its width — the instants over the full 32-bit range -/
 def RrsigComposable (r : Rrsig) : Prop :=
   TypeCoveredOk r.typeCovered ∧ r.algorithm < Gen.DnsSecAlgorithm.codes.length ∧ r.labels < 256 ^ 1 ∧
   r.originalTtl < 256 ^ 4 ∧ r.expiration < 256 ^ 4 ∧ r.inception < 256 ^ 4 ∧ r.keyTag < 256 ^ 2 ∧
   (∀ l ∈ r.signersName, LabelOk l)
 
-theorem RrsigOk.composable {r : Rrsig} (h : RrsigOk r) : RrsigComposable r := by
-  obtain ⟨h1, h2, h3, h4, h5, h6, h7, h8, _⟩ := h
-  have : (256 : Nat) ^ 4 = 2 ^ 32 := by decide
-  exact ⟨h1, h2, h3, h4, by omega, by omega, h7, h8⟩
+/-- … and the RDATA is not shorter than the class's `HEADER_SIZE` -/
+def RrsigOk (r : Rrsig) : Prop :=
+  RrsigComposable r ∧ rrsigHeaderSize ≤ 18 + (Spec.Dns.encodeName r.signersName).length + r.signature.length
+
+def Rrsig.toSpec (r : Rrsig) : Spec.Dns.Rrsig :=
+  ⟨typeCoveredCode r.typeCovered, Gen.DnsSecAlgorithm.codes.getD r.algorithm 0, r.labels, r.originalTtl, r.expiration,
+    r.inception, r.keyTag, r.signersName, r.signature⟩
+
+theorem RrsigOk.composable {r : Rrsig} (h : RrsigOk r) : RrsigComposable r := h.1
 
 theorem composeRrsig_eq_spec {r : Rrsig} (h : RrsigComposable r) :
     composeRrsig r = .ok (Spec.Dns.encodeRrsig r.toSpec) := by
   obtain ⟨h1, h2, h3, h4, h5, h6, h7, h8⟩ := h
   simp [composeRrsig, rrsigCodec, minSize, mapE, rrsigInner, rrsigToTuple, seq, num, typeCoveredCodec, algCodec,
-    codedStrict, ts4Codec, composeTimestamp, nameCodec, rawRest, composeTypeCovered_eq h1,
+    codedStrict, instantCodec, composeTimestamp, nameCodec, rawRest, composeTypeCovered_eq h1,
     composeCoded_eq alg_tableOk h2, composeNum_spec (k := 1) rfl h3, composeNum_spec (k := 4) rfl h4,
     composeNum_spec (k := 4) rfl h5, composeNum_spec (k := 4) rfl h6, composeNum_spec (k := 2) rfl h7,
     composeName_ok h8, bind, Except.bind, pure, Except.pure, Spec.Dns.encodeRrsig, Rrsig.toSpec]
@@ -416,39 +399,190 @@ theorem composeRrsig_eq_spec {r : Rrsig} (h : RrsigComposable r) :
 theorem rrsig_roundTripExact : RoundTripExact rrsigCodec RrsigOk := by
   apply minSize_roundTripExact
   · apply mapE_roundTripExact (w := fun x => TypeCoveredOk x.1 ∧ x.2.1 < Gen.DnsSecAlgorithm.codes.length ∧
-        x.2.2.1 < 256 ^ 1 ∧ x.2.2.2.1 < 256 ^ 4 ∧ (∃ t, x.2.2.2.2.1 = some t ∧ t < 2 ^ 32 - 1) ∧
-        (∃ t, x.2.2.2.2.2.1 = some t ∧ t < 2 ^ 32 - 1) ∧ x.2.2.2.2.2.2.1 < 256 ^ 2 ∧
-        (∀ l ∈ x.2.2.2.2.2.2.2.1, LabelOk l) ∧ True)
+        x.2.2.1 < 256 ^ 1 ∧ x.2.2.2.1 < 256 ^ 4 ∧ x.2.2.2.2.1 < 256 ^ 4 ∧ x.2.2.2.2.2.1 < 256 ^ 4 ∧
+        x.2.2.2.2.2.2.1 < 256 ^ 2 ∧ (∀ l ∈ x.2.2.2.2.2.2.2.1, LabelOk l) ∧ True)
       (seq_roundTripExact typeCovered_roundTrip
         (seq_roundTripExact (codedStrict_roundTrip alg_tableOk)
           (seq_roundTripExact (num_roundTrip .network (k := 1) rfl)
             (seq_roundTripExact (num_roundTrip .network (k := 4) rfl)
-              (seq_roundTripExact ts4_roundTrip
-                (seq_roundTripExact ts4_roundTrip
+              (seq_roundTripExact instant_roundTrip
+                (seq_roundTripExact instant_roundTrip
                   (seq_roundTripExact (num_roundTrip .network (k := 2) rfl)
                     (seq_roundTripExact name_roundTrip rawRest_roundTripExact))))))))
     intro r hr
-    obtain ⟨h1, h2, h3, h4, h5, h6, h7, h8, _⟩ := hr
-    exact ⟨⟨h1, h2, h3, h4, ⟨_, rfl, h5⟩, ⟨_, rfl, h6⟩, h7, h8, trivial⟩, rfl⟩
+    obtain ⟨⟨h1, h2, h3, h4, h5, h6, h7, h8⟩, _⟩ := hr
+    exact ⟨⟨h1, h2, h3, h4, h5, h6, h7, h8, trivial⟩, rfl⟩
   · intro r b hr hb
     have := composeRrsig_eq_spec hr.composable
     simp only [composeRrsig, rrsigCodec, minSize] at this
     rw [this] at hb
     cases hb
-    have hlen := hr.2.2.2.2.2.2.2.2
+    have hlen := hr.2
     simp only [Spec.Dns.encodeRrsig, toBytesBE_length, List.length_append, Rrsig.toSpec]
     omega
+
+/-! ### no exception outside the documented ones (up to the model's own boundary) -/
+
+/-- every crash the parser can report satisfies `P` (for `P k := k = "UNMODELLED"`: inside the model
+no exception but the four documented parse errors escapes) -/
+def CrashOnly (P : String → Prop) (c : Codec α) : Prop := ∀ b k, c.parse b = .error (.crash k) → P k
+
+theorem crashOnly_of_noCrash {c : Codec α} {P : String → Prop} (h : NoCrash c) : CrashOnly P c :=
+  fun b k hk => absurd hk (h b k)
+
+theorem seq_crashOnly {a : Codec α} {b : Codec β} {P : String → Prop} (ha : CrashOnly P a) (hb : CrashOnly P b) :
+    CrashOnly P (seq a b) := by
+  intro bs k
+  simp only [seq]
+  cases h1 : a.parse bs with
+  | error e =>
+    simp only [bind, Except.bind]
+    intro h; cases h
+    exact ha bs k h1
+  | ok r =>
+    obtain ⟨x, n⟩ := r
+    simp only [bind, Except.bind]
+    cases h2 : b.parse (bs.drop n) with
+    | error e =>
+      intro h; cases h
+      exact hb _ k h2
+    | ok r2 => simp [pure, Except.pure]
+
+theorem mapE_crashOnly {c : Codec α} {f : α → Except PErr β} {g : β → α} {P : String → Prop} (hc : CrashOnly P c)
+    (hf : ∀ x k, f x ≠ .error (.crash k)) : CrashOnly P (mapE c f g) := by
+  intro bs k
+  simp only [mapE]
+  cases h1 : c.parse bs with
+  | error e =>
+    simp only [bind, Except.bind]
+    intro h; cases h
+    exact hc bs k h1
+  | ok r =>
+    obtain ⟨x, n⟩ := r
+    simp only [bind, Except.bind]
+    cases h2 : f x with
+    | error e =>
+      intro h; cases h
+      exact absurd h2 (hf x k)
+    | ok y => simp [pure, Except.pure]
+
+theorem minSize_crashOnly {c : Codec α} {n : Nat} {P : String → Prop} (hc : CrashOnly P c) :
+    CrashOnly P (minSize n c) := by
+  intro bs k
+  simp only [minSize]
+  split
+  · simp
+  · exact hc bs k
+
+theorem rawRest_noCrash : NoCrash rawRest := fun b k => by simp [rawRest]
+
+theorem typeCovered_noCrash : NoCrash typeCoveredCodec := by
+  intro bs k
+  simp only [typeCoveredCodec, parseTypeCovered, orElseInvalid]
+  cases h1 : parseCoded Gen.DnsRrType.codes 2 bs with
+  | ok r => simp [Except.map]
+  | error e =>
+    have hnc := codedStrict_noCrash Gen.DnsRrType.codes (k := 2) rfl bs
+    simp only [codedStrict] at hnc
+    cases e with
+    | invalidValue =>
+      simp only [Except.map, parsePrivateType]
+      cases h2 : parseNum .network 2 bs with
+      | error e2 =>
+        simp only [bind, Except.bind]
+        intro h
+        cases h
+        exact parseNum_no_crash (k := 2) rfl bs k h2
+      | ok r2 =>
+        simp only [bind, Except.bind]
+        by_cases hlo : r2.fst < privateTypeMin
+        · simp [hlo]
+        · by_cases hhi : r2.fst > privateTypeMax
+          · simp [hlo, hhi]
+          · simp [hlo, hhi, pure, Except.pure]
+    | crash c => exact absurd h1 (hnc c)
+    | notEnough n => simp [Except.map]
+    | tooMuch n => simp [Except.map]
+    | invalidType => simp [Except.map]
+
+theorem parseLabel_crash {bs : Bytes} {k : String} (h : parseLabel bs = .error (.crash k)) : k = "UNMODELLED" := by
+  unfold parseLabel at h
+  cases h1 : parseBytes .network 1 bs with
+  | error e =>
+    simp only [h1, bind, Except.bind] at h
+    cases h
+    exact absurd h1 (bytesPrefixed_noCrash .network (k := 1) rfl bs k)
+  | ok r =>
+    obtain ⟨l, n⟩ := r
+    simp only [h1, bind, Except.bind] at h
+    split at h
+    · simp [pure, Except.pure] at h
+    · simp only [unmodelled, Except.error.injEq, PErr.crash.injEq] at h
+      exact h.symm
+
+theorem parseLabel_ok_inv {bs l : Bytes} {n : Nat} (h : parseLabel bs = .ok (l, n)) : 1 ≤ n ∧ n ≤ bs.length := by
+  unfold parseLabel at h
+  cases h1 : parseBytes .network 1 bs with
+  | error e => simp [h1, bind, Except.bind] at h
+  | ok r =>
+    obtain ⟨l', n'⟩ := r
+    simp only [h1, bind, Except.bind] at h
+    split at h
+    · simp [pure, Except.pure] at h
+      obtain ⟨_, _, hn, hle, _⟩ := parseBytes_ok_inv h1
+      omega
+    · simp at h
+
+theorem parseLabels_crash : ∀ (fuel : Nat) (bs : Bytes) (k : String), bs.length < fuel →
+    parseLabels fuel bs = .error (.crash k) → k = "UNMODELLED" := by
+  intro fuel
+  induction fuel with
+  | zero => intro bs k h; omega
+  | succ f ih =>
+    intro bs k hf h
+    simp only [parseLabels] at h
+    cases h1 : parseLabel bs with
+    | error e =>
+      simp only [h1, bind, Except.bind] at h
+      cases h
+      exact parseLabel_crash h1
+    | ok r =>
+      obtain ⟨l, n⟩ := r
+      obtain ⟨hn1, hn2⟩ := parseLabel_ok_inv h1
+      simp only [h1, bind, Except.bind] at h
+      split at h
+      · simp [pure, Except.pure] at h
+      · cases h2 : parseLabels f (bs.drop n) with
+        | error e =>
+          simp only [h2] at h
+          cases h
+          exact ih (bs.drop n) k (by simp only [List.length_drop]; omega) h2
+        | ok r2 => simp [h2, pure, Except.pure] at h
+
+theorem name_crashOnly : CrashOnly (· = "UNMODELLED") nameCodec :=
+  fun bs k h => parseLabels_crash (bs.length + 1) bs k (Nat.lt_succ_self _) h
+
+/-- `DnsRecordRrsig._parse` raises nothing but the four documented parse errors -/
+theorem rrsig_crashOnly : CrashOnly (· = "UNMODELLED") rrsigCodec := by
+  apply minSize_crashOnly
+  apply mapE_crashOnly
+  · exact seq_crashOnly (crashOnly_of_noCrash typeCovered_noCrash)
+      (seq_crashOnly (crashOnly_of_noCrash (codedStrict_noCrash _ rfl))
+        (seq_crashOnly (crashOnly_of_noCrash (num_noCrash .network rfl))
+          (seq_crashOnly (crashOnly_of_noCrash (num_noCrash .network rfl))
+            (seq_crashOnly (crashOnly_of_noCrash (num_noCrash .network (k := 4) rfl))
+              (seq_crashOnly (crashOnly_of_noCrash (num_noCrash .network (k := 4) rfl))
+                (seq_crashOnly (crashOnly_of_noCrash (num_noCrash .network rfl))
+                  (seq_crashOnly name_crashOnly (crashOnly_of_noCrash rawRest_noCrash))))))))
+  · intro x k
+    simp [rrsigOfTuple]
 
 /-! ### TXT -/
 
 def isAscii (b : Bytes) : Bool := b.all (fun x => x.toNat < 0x80)
 
-theorem composeTxt_eq_spec {v : Bytes} (ha : isAscii v = true) (hl : v.length ≤ 255) :
-    composeTxt v = .ok (Spec.Dns.encodeTxt [v]) := by
-  unfold composeTxt
-  simp only [isAscii] at ha
-  rw [if_pos ha, composeBytes_ok rfl v (by omega), encNat_network_spec]
-  simp [Spec.Dns.encodeTxt, Spec.Dns.encodeCharString]
+theorem isAscii_iff (c : Bytes) : isAscii c = true ↔ ∀ x ∈ c, x.toNat < 0x80 := by
+  simp [isAscii, List.all_eq_true]
 
 theorem isAscii_replicate (n : Nat) (x : UInt8) (hx : x.toNat < 0x80) : isAscii (List.replicate n x) = true := by
   induction n with
@@ -457,14 +591,91 @@ theorem isAscii_replicate (n : Nat) (x : UInt8) (hx : x.toNat < 0x80) : isAscii 
     simp only [isAscii, List.replicate_succ, List.all_cons, Bool.and_eq_true, decide_eq_true_eq] at ih ⊢
     exact ⟨hx, ih⟩
 
-theorem composeTxt_long {v : Bytes} (ha : isAscii v = true) (hl : 256 ≤ v.length) :
-    composeTxt v = .error .invalidValue := by
-  unfold composeTxt
+theorem composeCharString_ok {c : Bytes} (ha : isAscii c = true) (hl : c.length ≤ 255) :
+    composeCharString c = .ok (Spec.Dns.encodeCharString c) := by
+  unfold composeCharString
   simp only [isAscii] at ha
-  rw [if_pos ha]
-  unfold composeBytes composeNum
-  have h1 : ¬ ((v.length : Int) < 0) := by omega
-  simp [validSize, h1, hl, bind, Except.bind]
+  rw [if_pos ha, composeBytes_ok rfl c (by omega), encNat_network_spec]
+  rfl
+
+theorem composeItems_charStrings {cs : List Bytes} (h : ∀ c ∈ cs, isAscii c = true ∧ c.length ≤ 255) :
+    composeItems composeCharString cs = .ok (Spec.Dns.encodeTxt cs) := by
+  induction cs with
+  | nil => rfl
+  | cons c t ih =>
+    obtain ⟨ha, hl⟩ := h c (by simp)
+    simp only [composeItems, composeCharString_ok ha hl, ih (fun x hx => h x (List.mem_cons_of_mem _ hx)),
+      bind, Except.bind, pure, Except.pure, Spec.Dns.encodeTxt, List.flatMap_cons]
+
+/-- the slices of `range(0, len, n)`: they concatenate to the value, each has 1..n octets taken from it -/
+theorem chunks_spec {n : Nat} (hn : 0 < n) : ∀ (fuel : Nat) (v : Bytes), v.length ≤ fuel →
+    (chunks n fuel v).flatten = v ∧ (∀ c ∈ chunks n fuel v, 1 ≤ c.length ∧ c.length ≤ n ∧ ∀ x ∈ c, x ∈ v) ∧
+    (v ≠ [] → chunks n fuel v ≠ []) := by
+  intro fuel
+  induction fuel with
+  | zero =>
+    intro v hv
+    have : v = [] := List.length_eq_zero_iff.mp (by omega)
+    subst this
+    simp [chunks]
+  | succ f ih =>
+    intro v hv
+    cases v with
+    | nil => simp [chunks]
+    | cons a t =>
+      have hne : (a :: t).isEmpty = false := rfl
+      simp only [chunks, hne, Bool.false_eq_true, if_false]
+      have hdl : ((a :: t).drop n).length ≤ f := by
+        simp only [List.length_drop, List.length_cons] at hv ⊢
+        omega
+      obtain ⟨h1, h2, _⟩ := ih ((a :: t).drop n) hdl
+      refine ⟨?_, ?_, by simp⟩
+      · simp only [List.flatten_cons, h1, List.take_append_drop]
+      · intro c hc
+        simp only [List.mem_cons] at hc
+        cases hc with
+        | inl h =>
+          subst h
+          refine ⟨?_, List.length_take_le _ _, fun x hx => List.mem_of_mem_take hx⟩
+          simp only [List.length_take, List.length_cons]
+          omega
+        | inr h =>
+          obtain ⟨c1, c2, c3⟩ := h2 c h
+          exact ⟨c1, c2, fun x hx => List.mem_of_mem_drop (c3 x hx)⟩
+
+/-- what `DnsRecordTxt.compose` writes for an ASCII value: character-strings of 1..255 octets (one empty
+string for the empty value) that concatenate to the value -/
+theorem txtChunks_spec (v : Bytes) (ha : isAscii v = true) :
+    (txtChunks v).flatten = v ∧ txtChunks v ≠ [] ∧ ∀ c ∈ txtChunks v, isAscii c = true ∧ c.length ≤ 255 := by
+  unfold txtChunks
+  cases v with
+  | nil => simp [isAscii]
+  | cons a t =>
+    have hne : (a :: t).isEmpty = false := rfl
+    simp only [hne, Bool.false_eq_true, if_false]
+    obtain ⟨h1, h2, h3⟩ := chunks_spec (n := 255) (by decide) (a :: t).length (a :: t) (Nat.le_refl _)
+    refine ⟨h1, h3 (by simp), fun c hc => ?_⟩
+    obtain ⟨_, c2, c3⟩ := h2 c hc
+    refine ⟨?_, c2⟩
+    rw [isAscii_iff] at ha ⊢
+    exact fun x hx => ha x (c3 x hx)
+
+theorem composeTxt_eq_spec {v : Bytes} (ha : isAscii v = true) :
+    composeTxt v = .ok (Spec.Dns.encodeTxt (txtChunks v)) :=
+  composeItems_charStrings (txtChunks_spec v ha).2.2
+
+/-- a value of at most 255 octets is one character-string -/
+theorem txtChunks_short {v : Bytes} (hl : v.length ≤ 255) : txtChunks v = [v] := by
+  unfold txtChunks
+  cases v with
+  | nil => rfl
+  | cons a t =>
+    have hne : (a :: t).isEmpty = false := rfl
+    simp only [hne, Bool.false_eq_true, if_false, List.length_cons, chunks]
+    have h1 : (a :: t).take 255 = a :: t := List.take_of_length_le (by simpa using hl)
+    have h2 : (a :: t).drop 255 = [] := List.drop_of_length_le (by simpa using hl)
+    rw [h1, h2]
+    cases t.length <;> simp [chunks]
 
 theorem parseCharString_encode {v : Bytes} (ha : isAscii v = true) (hl : v.length ≤ 255) (s : Bytes) :
     parseCharString (Spec.Dns.encodeCharString v ++ s) = .ok (v, 1 + v.length) := by
@@ -741,50 +952,43 @@ theorem parseKeyRsa_consumes_all {kb : Bytes} {k : Key} {n : Nat} (h : parseKeyR
 
 /-! ### elliptic-curve keys (RFC 6605) -/
 
-/-- coordinates of a key whose fixed-width form the library reproduces: non-zero, fitting `n` octets,
-at least one of them really `n` octets wide (above `256^(n-1)`), away from the float zone -/
-def EcOk (n x y : Nat) : Prop :=
-  1 ≤ n ∧ 1 ≤ x ∧ 1 ≤ y ∧ x < 256 ^ n ∧ y < 256 ^ n ∧ (256 ^ (n - 1) < x ∨ 256 ^ (n - 1) < y) ∧
-  floatRisk x = false ∧ floatRisk y = false
+/-- coordinates that fit `n` octets and from which the library can build its key object
+(`ECPointBitString.from_coords` raises for a zero coordinate and when the wider coordinate is a
+power of 256; see `ecWidth_of_not_pow` for a sufficient condition) -/
+def EcOk (n x y : Nat) : Prop := x < 256 ^ n ∧ y < 256 ^ n ∧ ∃ w, ecWidth x y = .ok w
 
-theorem ecWidth_ok {n x y : Nat} (h : EcOk n x y) : ecWidth x y = .ok n := by
-  obtain ⟨hn, hx1, hy1, hx, hy, hbig, hrx, hry⟩ := h
-  have hcx : clog256 x ≤ n := (clog256_le_iff hx1 n).mpr (Nat.le_of_lt hx)
-  have hcy : clog256 y ≤ n := (clog256_le_iff hy1 n).mpr (Nat.le_of_lt hy)
-  have hmax : max (clog256 x) (clog256 y) = n := by
-    cases hbig with
-    | inl hb =>
-      have : ¬ (clog256 x ≤ n - 1) := fun hc => by
-        have := (clog256_le_iff hx1 (n - 1)).mp hc
-        omega
-      omega
-    | inr hb =>
-      have : ¬ (clog256 y ≤ n - 1) := fun hc => by
-        have := (clog256_le_iff hy1 (n - 1)).mp hc
-        omega
-      omega
+/-- non-zero coordinates that are not powers of 256 (and away from the float zone) are accepted,
+however many leading zero octets they have -/
+theorem ecWidth_of_not_pow {x y : Nat} (hx1 : 1 ≤ x) (hy1 : 1 ≤ y) (hrx : floatRisk x = false)
+    (hry : floatRisk y = false) (hpx : ∀ k, x ≠ 256 ^ k) (hpy : ∀ k, y ≠ 256 ^ k) :
+    ∃ w, ecWidth x y = .ok w := by
+  refine ⟨max (clog256 x) (clog256 y), ?_⟩
   have hx0 : ¬ (x = 0) := by omega
   have hy0 : ¬ (y = 0) := by omega
-  have hnx : ¬ (256 ^ n ≤ x) := by omega
-  have hny : ¬ (256 ^ n ≤ y) := by omega
-  simp [ecWidth, hx0, hy0, hrx, hry, hmax, hnx, hny]
+  have hxw : x ≤ 256 ^ max (clog256 x) (clog256 y) := (clog256_le_iff hx1 _).mp (Nat.le_max_left _ _)
+  have hyw : y ≤ 256 ^ max (clog256 x) (clog256 y) := (clog256_le_iff hy1 _).mp (Nat.le_max_right _ _)
+  have := hpx (max (clog256 x) (clog256 y))
+  have := hpy (max (clog256 x) (clog256 y))
+  have hnx : ¬ (256 ^ max (clog256 x) (clog256 y) ≤ x) := by omega
+  have hny : ¬ (256 ^ max (clog256 x) (clog256 y) ≤ y) := by omega
+  simp [ecWidth, hx0, hy0, hrx, hry, hnx, hny]
 
-theorem composeKeyEc_eq_spec {n x y : Nat} (h : EcOk n x y) :
-    composeKeyEc x y = .ok (Spec.Dns.encodeEcdsa n x y) := by
-  unfold composeKeyEc
-  rw [ecWidth_ok h]
-  simp only [bind, Except.bind, composeMpint_nat h.2.2.2.1, composeMpint_nat h.2.2.2.2.1, pure, Except.pure,
+/-- every pair of coordinates that fit the curve's width composes to the fixed-width form -/
+theorem composeKeyEc_eq_spec {g x y : Nat} (hx : x < 256 ^ groupBytes g) (hy : y < 256 ^ groupBytes g) :
+    composeKeyEc g x y = .ok (Spec.Dns.encodeEcdsa (groupBytes g) x y) := by
+  simp only [composeKeyEc, bind, Except.bind, composeMpint_nat hx, composeMpint_nat hy, pure, Except.pure,
     Spec.Dns.encodeEcdsa]
 
 theorem parseKeyEc_spec {g x y : Nat} (h : EcOk (groupBytes g) x y) (s : Bytes) :
     parseKeyEc g (Spec.Dns.encodeEcdsa (groupBytes g) x y ++ s) = .ok (.ec g x y, 2 * groupBytes g) := by
-  simp only [parseKeyEc, Spec.Dns.encodeEcdsa, List.append_assoc, parseMpint_spec h.2.2.2.1, bind, Except.bind]
+  obtain ⟨hx, hy, w, hw⟩ := h
+  simp only [parseKeyEc, Spec.Dns.encodeEcdsa, List.append_assoc, parseMpint_spec hx, bind, Except.bind]
   have hd : (Spec.toBytesBE (groupBytes g) x ++ (Spec.toBytesBE (groupBytes g) y ++ s)).drop (groupBytes g)
       = Spec.toBytesBE (groupBytes g) y ++ s := by
     have := List.drop_left (l₁ := Spec.toBytesBE (groupBytes g) x) (l₂ := Spec.toBytesBE (groupBytes g) y ++ s)
     rwa [toBytesBE_length] at this
-  rw [hd, parseMpint_spec h.2.2.2.2.1]
-  simp only [Int.toNat_natCast, ecWidth_ok h, pure, Except.pure]
+  rw [hd, parseMpint_spec hy]
+  simp only [Int.toNat_natCast, hw, pure, Except.pure]
   congr 2
   omega
 
@@ -885,7 +1089,7 @@ theorem composeKey_eq_spec {code : Nat} {key : Key} (h : KeyOk code key) :
     composeKey key = .ok (keySpecBytes key) := by
   cases key with
   | rsa e m => exact composeKeyRsa_eq_spec h.2
-  | ec g x y => exact composeKeyEc_eq_spec h.2
+  | ec g x y => exact composeKeyEc_eq_spec h.2.1 h.2.2.1
   | eddsa c d => rfl
   | dsa p g q y => exact absurd h id
 
